@@ -1,27 +1,9 @@
 package main
 
-import (
-	"fmt"
-	"go/ast"
-	"go/token"
-	"os"
-	"regexp"
-	"strings"
-)
-
-// debugDump: NORM_DEBUG=<structure name> prints the normalised body the recogniser is given (development aid only)
-func (nz *normaliser) debugDump(what string, c *jCmd, stmts []ast.Stmt) {
-	if os.Getenv("NORM_DEBUG") != c.Name {
-		return
-	}
-	fmt.Fprintf(os.Stderr, "---- %s of %s after normalisation\n", what, c.Name)
-	for _, s := range stmts {
-		fmt.Fprintln(os.Stderr, "  |", nz.s(s))
-	}
-}
-
 // Fourth group of normalisations in front of the SmbCommands recogniser (contract as in smb_normalise.go: general program
 // equivalences, side conditions checked on the text, untouched when undecidable — the recogniser then refuses).
+//
+// Marshal side:
 //
 //	M13 emission helper.  `x = f(x, a1, …, an)` / `x = f(x, a…, t...)` / `x = f(x, a…, t[:]...)`, f a package-level plain
 //	    function of package commands `func f(dst []byte, p1 T1, …[, vs ...T]) []byte` whose body is a list of emission
@@ -48,6 +30,46 @@ func (nz *normaliser) debugDump(what string, c *jCmd, stmts []ast.Stmt) {
 //	    ascending (little-endian) or descending (big-endian) significance.  Nothing stands between the statements of the
 //	    run, so all of them read the same value of the field.  A missing or repeated byte, another shift, mixed fields,
 //	    a run shorter or longer than the field: not touched (and so refused by the recogniser).
+//
+// Unmarshal side:
+//
+//	U15 hoisted accessor (the mirror of M8).  `p := c.GetParameters()` / `d := c.GetData()` at the top level, assigned
+//	    once, with no `SetParameters(` / `SetData(` anywhere behind it, is the call itself wherever `p` / `d` stands: the
+//	    getters are pure and return the same block every time as long as no setter runs.
+//	U16 constant cursor.  Behind the last mention of the cursor and in front of the closing `offset = 0; return offset,
+//	    nil` the cursor is DEAD (it is overwritten before anything reads it, and every early `return` in between names
+//	    what it hands back itself).  In that region a statement `t := K` (K a constant expression >= 0 over literals and
+//	    package constants, t assigned nowhere else and used only up to the next such statement) may therefore be written
+//	    `offset = K` with `offset` for `t` in its segment: a store to a dead variable followed by reads of a variable that
+//	    holds the same number.  The first store is kept as `offset = K0`; a later one is `offset += Kj-Kj-1` when that
+//	    difference is positive (the cursor still holds Kj-1: nothing in a segment assigns it), which is the dialect's
+//	    advance between two fields.  The cursor must be reachable by name only (no closure mentions it, `&offset` occurs
+//	    nowhere), otherwise "not mentioned" would not mean "not touched".  (When the segments carry different names U5 has not written the closing pair; a body
+//	    that mentions `offset` nowhere and ends in `return 0, nil` gets it here.)  The offsets, and with them every bound and index of the segment, stand in the text
+//	    as before: `2*i+1` for `2*i` gives `offset = 1`, another stride another advance.
+//	U17 dead advance.  `offset += w` directly in front of `offset = 0` is a dead store: present or absent is the same.
+//	    Behind a fixed-width integer read `c.F = T(binary.<Order>.UintW(raw…Content[offset : offset+w]))` that stands
+//	    directly in front of `offset = 0` the dialect's form (present, by the width read) is restored.
+
+import (
+	"fmt"
+	"go/ast"
+	"go/token"
+	"os"
+	"regexp"
+	"strings"
+)
+
+// debugDump: NORM_DEBUG=<structure name> prints the normalised body the recogniser is given (development aid only)
+func (nz *normaliser) debugDump(what string, c *jCmd, stmts []ast.Stmt) {
+	if os.Getenv("NORM_DEBUG") != c.Name {
+		return
+	}
+	fmt.Fprintf(os.Stderr, "---- %s of %s after normalisation\n", what, c.Name)
+	for _, s := range stmts {
+		fmt.Fprintln(os.Stderr, "  |", nz.s(s))
+	}
+}
 
 // emissionHelpers (M13) over a statement list and the blocks nested in it
 func (nz *normaliser) emissionHelpers(list []ast.Stmt, used map[string]bool) []ast.Stmt {
@@ -362,24 +384,6 @@ func (nz *normaliser) byteRuns(list []ast.Stmt, st *mstate) []ast.Stmt {
 	return out
 }
 
-// Unmarshal side:
-//
-//	U15 hoisted accessor (the mirror of M8).  `p := c.GetParameters()` / `d := c.GetData()` at the top level, assigned
-//	    once, with no `SetParameters(` / `SetData(` anywhere behind it, is the call itself wherever `p` / `d` stands: the
-//	    getters are pure and return the same block every time as long as no setter runs.
-//	U16 constant cursor.  Behind the last mention of the cursor and in front of the closing `offset = 0; return offset,
-//	    nil` the cursor is DEAD (it is overwritten before anything reads it, and every early `return` in between names
-//	    what it hands back itself).  In that region a statement `t := K` (K a constant expression >= 0 over literals and
-//	    package constants, t assigned nowhere else and used only up to the next such statement) may therefore be written
-//	    `offset = K` with `offset` for `t` in its segment: a store to a dead variable followed by reads of a variable that
-//	    holds the same number.  The first store is kept as `offset = K0`; a later one is `offset += Kj-Kj-1` when that
-//	    difference is positive (the cursor still holds Kj-1: nothing in a segment assigns it), which is the dialect's
-//	    advance between two fields.  The offsets, and with them every bound and index of the segment, stand in the text
-//	    as before: `2*i+1` for `2*i` gives `offset = 1`, another stride another advance.
-//	U17 dead advance.  `offset += w` directly in front of `offset = 0` is a dead store: present or absent is the same.
-//	    Behind a fixed-width integer read `c.F = T(binary.<Order>.UintW(raw…Content[offset : offset+w]))` that stands
-//	    directly in front of `offset = 0` the dialect's form (present, by the width read) is restored.
-
 // unmarshalAccessors (U15)
 func (nz *normaliser) unmarshalAccessors(fd *ast.FuncDecl, list []ast.Stmt) []ast.Stmt {
 	alias := map[string]string{}
@@ -431,9 +435,47 @@ func (nz *normaliser) unmarshalAccessors(fd *ast.FuncDecl, list []ast.Stmt) []as
 
 // constCursor (U16) on the top-level list
 func (nz *normaliser) constCursor(list []ast.Stmt) []ast.Stmt {
+	if out, ok := nz.constCursor1(list); ok {
+		return out
+	}
+	return list
+}
+
+func (nz *normaliser) constCursor1(list []ast.Stmt) ([]ast.Stmt, bool) {
+	if k := len(list); k >= 1 && nz.s(list[k-1]) == `return 0, nil` {
+		// U5 leaves a body with several segment names alone; when the cursor's name occurs nowhere, the closing pair is
+		// written here as U5 writes it (a final `return 0, nil` is `offset = 0; return offset, nil`)
+		for _, s := range list {
+			if countIdent(s, "offset") > 0 {
+				return nil, false
+			}
+		}
+		nl := append([]ast.Stmt{}, list[:k-1]...)
+		list = append(nl, nz.parseStmts("offset = 0\nreturn offset, nil", posOf(list[k-1]))...)
+	}
 	n := len(list)
 	if n < 3 || nz.s(list[n-1]) != `return offset, nil` || nz.s(list[n-2]) != `offset = 0` {
-		return list
+		return nil, false
+	}
+	// the cursor must not be reachable except by name: no closure captures it, its address is never taken
+	for _, s := range list {
+		hidden := false
+		ast.Inspect(s, func(x ast.Node) bool {
+			switch t := x.(type) {
+			case *ast.FuncLit:
+				if countIdent(t, "offset") > 0 {
+					hidden = true
+				}
+			case *ast.UnaryExpr:
+				if t.Op == token.AND && countIdent(t.X, "offset") > 0 {
+					hidden = true
+				}
+			}
+			return true
+		})
+		if hidden {
+			return nil, false
+		}
 	}
 	end := n - 2
 	p := end
@@ -478,12 +520,12 @@ func (nz *normaliser) constCursor(list []ast.Stmt) []ast.Stmt {
 			}
 		}
 		if assigns != 1 || total != inside+1 || inside == 0 {
-			return list // a constant that is not a segment cursor stands in the region: leave everything as it is
+			return nil, false // a constant that is not a segment cursor stands in the region: leave everything as it is
 		}
 		good = append(good, h)
 	}
 	if len(good) == 0 {
-		return list
+		return nil, false
 	}
 	var out []ast.Stmt
 	if p == 0 {
@@ -511,7 +553,7 @@ func (nz *normaliser) constCursor(list []ast.Stmt) []ast.Stmt {
 		}
 		out = append(out, s)
 	}
-	return out
+	return out, true
 }
 
 // deadAdvance (U17) on the top-level list
